@@ -150,6 +150,18 @@ check("C14", "proof",
       "host callables are abstract (value / returned error / raised ValueError or TypeError); every kind of Python callable x "
       "supplying style x call shape x both runners and the once-per-call-site counts are a bounded stand-in.",
       "contract-based deductive verification with a ghost call log + frame (heap-write) obligation", "DESIGN.md 4/C14")
+check("C05", "proof",
+      "Footprint (frame) obligations from symbolic execution with a heap-write log: Activation.clone() yields a copy none of "
+      "whose containers/referents is an object of the base (deep ownership); clone()+load_values() for plain, dotted and new "
+      "dotted names leaves every object of the base and the caller's bindings untouched; InterpretedRunner.evaluate and "
+      "Transpiler.evaluate (the generated statements of a real transpiled program run through an exec() model) write only "
+      "to objects created during the call or to the transpiler's own write-before-read field - no store into a shared "
+      "namespace, module global or the runner; Activation.__init__ never writes base_functions. With every operation's "
+      "write set disjoint from every other's read set, each evaluation of a history equals the evaluation alone.",
+      "lark's parser is stateless between parses; the disjointness lemma is argued in DESIGN.md, not mechanised; histories of "
+      "API operations (length 2-4, both runner classes, dotted names, host functions), each run in a fresh interpreter and "
+      "compared with the evaluation alone in a fresh interpreter, are a bounded stand-in that also replays refutations.",
+      "contract-based deductive verification: frame/ownership obligations over a logged heap + bounded history replay", "DESIGN.md 4/C05")
 _pending = "contracts for this property are not built yet in this revision (work in progress, see DESIGN.md section 8 build order)"
-for _p in ["C03","C04","C05","C06","C07","C16"]:
+for _p in ["C03","C04","C06","C07","C16"]:
     NA[_p] = _pending
